@@ -5,7 +5,7 @@ from .. import fam_pipeline as fp
 from .. import gen_models as gm
 from .. import pipeline as pl
 
-THEOREMS = ["C03.xfs_wo", "C03.xfs_drq", "C02.quantize_skeleton", "C17.dq_q_rounded"]
+THEOREMS = ["C06.weight_only_equiv", "C06.weight_only_outputs", "C06.weight_only_equiv_conv", "C03.xfs_wo", "C03.xfs_drq", "C02.quantize_skeleton", "C17.dq_q_rounded"]
 
 
 def gen(rng, i):
@@ -31,13 +31,25 @@ def gen(rng, i):
 
 def run(ctx):
     ctx.rule = ("generated float models x accepted weight-only / float16 / dynamic-range recipes (4- and 8-bit, symmetric/asymmetric, per-tensor/per-channel, uniform and per-op mixed) x random inputs: interpreter(quantized model) vs interpreter(reference model built by the check from the INPUT model + constants decoded by the independent decoder); float32-rounding tolerance for weight-only/float16, generous end-to-end bound for dynamic range; pipeline compared with the Lean model; distinct = distinct (model, recipe)")
-    ctx.explanation = ("PARTIAL: what is proved is that these modes request only DEQUANTIZE on constants / in-place quantization of constants (C03.xfs_wo, xfs_drq), that the rewritten graph has exactly the input skeleton (C02.quantize_skeleton), and the value law of the stored constants (C17.dq_q_rounded). The equality of interpreter outputs is runtime behaviour (LiteRT kernels, incl. the dynamic 8-bit activation quantization of hybrid kernels) that the model cannot exhibit: it is executed, not proved.")
-    common.proof_side(ctx, THEOREMS, modules=["QProps.C03", "QProps.C02", "QProps.C17", "QProps.C17b"])
+    ctx.explanation = ("PARTIAL: proved for weight-only / float16 rewrites, for EVERY kernel semantics and EVERY input: the rewritten graph runs iff the input graph with dequantized constants runs, and both compute the same value for every original tensor, in particular every graph output (C06.weight_only_equiv, _outputs, _conv; hypotheses = skeleton preserved (C02.quantize_skeleton) + DEQUANTIZE-on-constant shape, evaluated by the driver on the model's output of every generated case). Also proved: these modes request only DEQUANTIZE on constants / in-place quantization of constants (C03.xfs_wo, xfs_drq) and the value law of the stored constants (C17.dq_q_rounded). The equality of interpreter outputs is runtime behaviour (LiteRT kernels, incl. the dynamic 8-bit activation quantization of hybrid kernels) that the model cannot exhibit: it is executed, not proved.")
+    common.proof_side(ctx, THEOREMS, modules=["QProps.C06", "QProps.C03", "QProps.C02", "QProps.C17", "QProps.C17b"])
     drv = common.Driver()
     interp = pl.Interp()
 
     def per_case(case, res):
         if res["status"] == "ok":
+            modes = fnum.modes_in(res["q"], case.mb) - {"none"}
+            mr = res.get("model_resp")
+            if modes and modes <= {"wo", "fp16"} and mr and "c06_shape" in mr:
+                # hypotheses of C06.weight_only_equiv / _outputs / _conv, evaluated on the model's output graph
+                # (which the pipeline correspondence has just compared with the real output)
+                for si, sh in enumerate(mr["c06_shape"]):
+                    ctx.tag("c06_hyp_checked")
+                    if sh["ins"]:
+                        ctx.tag("c06_hyp_nontrivial")
+                    if not (sh["deq_on_const"] and sh["ins_before_use"] and sh["outputs_clean"]):
+                        ctx.disagree("c06.theorem-hypotheses", {"subgraph": si, **case.replay()}, sh,
+                                     "weight-only/float16 rewrite must be DEQUANTIZE-on-constant, placed before use, outputs underived")
             fnum.compare_float_modes(ctx, interp, case, res, fp.failer(ctx, case))
     try:
         fp.explore(ctx, drv, 130 if ctx.tier == "quick" else 2500, per_case, gen=gen, graph_corr=False, pipe_corr=True)
